@@ -43,12 +43,19 @@ def configs(tier, rng):
            dict(fam="qbits", bits=4, integer=1, alpha="auto_po2", scale_axis=0, eps=None, emin=None, emax=None, pts=None),
            dict(fam="qbits", bits=4, integer=0, alpha="auto_po2", scale_axis=1, eps=2, emin=None, emax=None, pts=None),
            dict(fam="qbits", bits=6, integer=0, alpha="auto_po2", scale_axis=None, eps=None, emin=-3, emax=-1, pts=None),
+           dict(fam="qbits", bits=4, integer=0, alpha="auto_po2", scale_axis=None, eps=None, emin=0, emax=None, pts=None),
+           dict(fam="qbits", bits=4, integer=0, alpha="auto_po2", scale_axis=None, eps=None, emin=None, emax=0, pts=None),
+           dict(fam="qbits", bits=6, integer=1, alpha="auto_po2", scale_axis=None, eps=None, emin=0, emax=0, pts=None),
+           dict(fam="qbits", bits=4, integer=0, alpha="auto_po2", scale_axis=None, eps=None, emin=-2, emax=None, pts=None),
+           dict(fam="qbits", bits=8, integer=0, alpha="auto_po2", scale_axis=None, eps=None, emin=None, emax=2, pts=None),
            dict(fam="qbits", bits=4, integer=0, alpha="auto_po2", scale_axis=None, eps=None, emin=None, emax=None, pts=0.5),
            dict(fam="qbits", bits=8, integer=2, alpha="auto", scale_axis=None, eps=None, emin=None, emax=None, pts=0.25)]
   for bits, integer, alpha, kn, sym in itertools.product([2, 4, 8], [0, 2], ["auto", "auto_po2"], [1, 0], [1, 0]):
     cfgs.append(dict(fam="qlin", bits=bits, integer=integer, alpha=alpha, kn=kn, sym=sym))
   if tier == "quick":
-    idx = rng.choice(len(cfgs), size=26, replace=False)
+    must = [i for i, c in enumerate(cfgs) if c.get("emin") is not None or c.get("emax") is not None]
+    rest = [i for i in range(len(cfgs)) if i not in must]
+    idx = list(rng.choice(rest, size=22, replace=False)) + must
     cfgs = [cfgs[i] for i in sorted(idx)]
   return cfgs
 
